@@ -2095,7 +2095,8 @@ def compile_import(compiler, expr, root, is_lazy, entries):
             node = asty.ImportFrom
             names = [asty.alias(module, name="*", asname=None)]
         elif assignments == "EXPORTS":
-            compiler.scope.define(prefix)
+            # `import a.b` binds only `a`.
+            compiler.scope.define(prefix.split(".")[0])
             node = asty.Import
             names = [asty.alias(
                 module,
